@@ -180,8 +180,16 @@ func (q *UdpTaskQueue) convoy() {
 				continue
 			}
 
-			// CAS refs to lock out new acquireQueue and avoid time.Sleep
-			if !q.refs.CompareAndSwap(0, -1000000) {
+			// CAS refs to lock out new acquireQueue and avoid time.Sleep.
+			// refs == 0 alone cannot tell "nobody came" from "an EmitTask came and left"
+			// since the check above, so re-check emptiness together with the CAS while
+			// holding enqueueMu: no enqueue can complete in between, and a queue that
+			// still holds tasks is never collected (its channel would be recycled with
+			// the tasks inside).
+			q.enqueueMu.Lock()
+			idle := len(q.ch) == 0 && len(q.overflow) == 0 && q.refs.CompareAndSwap(0, -1000000)
+			q.enqueueMu.Unlock()
+			if !idle {
 				q.safeTimerReset(timer)
 				continue
 			}
